@@ -25,15 +25,29 @@ pub open spec fn be32_bytes(x: int) -> Seq<u8> {
     seq![((x / 16777216) % 256) as u8, ((x / 65536) % 256) as u8, ((x / 256) % 256) as u8, (x % 256) as u8]
 }
 pub open spec fn be16_bytes(x: int) -> Seq<u8> { seq![((x / 256) % 256) as u8, (x % 256) as u8] }
+pub proof fn lemma_u32_split(x: u32)
+    ensures x == (x % 256) + 256 * ((x / 256) % 256) + 65536 * ((x / 65536) % 256) + 16777216 * ((x / 16777216) % 256), x / 16777216 < 256,
+{
+    assert(x == (x % 256) + 256 * ((x / 256) % 256) + 65536 * ((x / 65536) % 256) + 16777216 * ((x / 16777216) % 256) && x / 16777216 < 256) by(bit_vector);
+}
+pub proof fn lemma_u16_split(x: u16)
+    ensures x == (x % 256) + 256 * ((x / 256) % 256), x / 256 < 256,
+{
+    assert(x == (x % 256) + 256 * ((x / 256) % 256) && x / 256 < 256) by(bit_vector);
+}
 pub proof fn lemma_le32_bytes(x: int)
     requires 0 <= x < 0x1_0000_0000,
     ensures le32(le32_bytes(x)[0], le32_bytes(x)[1], le32_bytes(x)[2], le32_bytes(x)[3]) == x,
         be32(be32_bytes(x)[0], be32_bytes(x)[1], be32_bytes(x)[2], be32_bytes(x)[3]) == x,
-{}
+{
+    lemma_u32_split(x as u32);
+}
 pub proof fn lemma_be16_bytes(x: int)
     requires 0 <= x < 0x1_0000,
     ensures be16(be16_bytes(x)[0], be16_bytes(x)[1]) == x,
-{}
+{
+    lemma_u16_split(x as u16);
+}
 
 // ---------- oracle: serialised form of a message ----------
 pub open spec fn norm_htyp(h: u8, has_ext: bool) -> u8 {
